@@ -100,6 +100,63 @@ def ob_match(region, two, tmax, wmax, smax, lmax):
               (plo, phi, wlo, wmax, " two matching counters" if two else "", n), paths=n)
 
 
+def ob_match_malformed(tmax, wmax, smax, lmax, pmax):
+    """a submission that is not a code of the right length is reported as malformed whatever the time, window, skew and last
+    counter are - also when the window is empty (last counter beyond it, window before the epoch)"""
+    import passlib.totp as T
+    from passlib import exc
+    time, window, skew, last, period = [ZInt.var(n) for n in "time window skew last period".split()]
+    bounds = z3.And(time.e >= 0, time.e <= tmax, window.e >= 0, window.e <= wmax, skew.e >= -smax, skew.e <= smax,
+                    last.e >= -1, last.e <= lmax, period.e >= 1, period.e <= pmax)
+    totp = T.TOTP(key=b"0123456789abcdefghij", format="raw")
+    n = 0
+    for token in ("12345", "1234567", "12345a", "", 1234567, "12 34"):
+        def run():
+            sym.assume(bounds)
+            totp.period = period
+            totp._generate = lambda counter: "999999"
+            lc = None if bool(last < 0) else last
+            try:
+                totp.match(token, time=time, window=window, skew=skew, last_counter=lc)
+                return "accepted"
+            except exc.MalformedTokenError:
+                return "malformed"
+            except exc.UsedTokenError:
+                return "used"
+            except exc.InvalidTokenError:
+                return "invalid"
+        with patched((T, "int", int_), (T, "consteq", lambda a, b: a == b)):
+            paths = explore(run, max_paths=20000)
+        for pth in paths:
+            n += 1
+            if pth.exc is not None or pth.result != "malformed":
+                r, m = check(pth.cond())
+                if r != "sat":
+                    continue
+                vals = dict((k, m.eval(v.e, True).as_long()) for k, v in (("time", time), ("window", window), ("skew", skew), ("last", last), ("period", period)))
+                return violation("TOTP.match(%r) with %r: %s instead of MalformedTokenError" % (token, vals, pth.exc if pth.exc is not None else pth.result),
+                                 "totp.match:malformed", {"module": "harness.c14", "func": "replay_malformed", "args": dict(vals, token=token)})
+        r, m = check(bounds, z3.Not(z3.Or(*[q.pc for q in paths])), timeout_ms=120000)
+        if r != "unsat":
+            return inconclusive("explored paths do not cover the bound (%s)" % r)
+    return ok("6 malformed submissions x all times/windows/skews/last counters/periods inside the bound: always MalformedTokenError "
+              "(%d paths, covering the bound)" % n, paths=n)
+
+
+def replay_malformed(token, time, window, skew, last, period):
+    import passlib.totp as T
+    from passlib import exc
+    totp = T.TOTP(key=b"0123456789abcdefghij", format="raw", period=period)
+    try:
+        totp.match(token, time=time, window=window, skew=skew, last_counter=None if last < 0 else last)
+        return "match(%r) accepted" % (token,)
+    except exc.MalformedTokenError:
+        return False
+    except Exception as e:
+        return "match(%r, time=%r, window=%r, skew=%r, last_counter=%r) with period %r raises %r, not MalformedTokenError" % (
+            token, time, window, skew, last, period, e)
+
+
 def _viol(pth, what, L, region, two, m=None):
     if m is None:
         r, m = check(pth.cond())
@@ -285,6 +342,7 @@ def run(tier, seed, t0, only=None):
     for d in (6, 7, 8, 9, 10):
         obs.append(Ob("int-token[digits=%d]" % d, ob_int_token, {"digits": d}, timeout=600))
     obs.append(Ob("text-tokens", ob_text_tokens, timeout=120))
+    obs.append(Ob("match-malformed", ob_match_malformed, dict(tmax=tmax, wmax=wmax, smax=smax, lmax=lmax, pmax=regions[-1][1]), timeout=900))
     if only:
         obs = [o for o in obs if only in o.name]
     results = runner.run_obligations(obs)
